@@ -7,6 +7,7 @@
 extern unsigned sysrand_calls;          /* number of getrandom() calls so far (incl. failing ones) */
 extern uint64_t sysrand_fail_mask;      /* bit k set: call k fails permanently (EIO) */
 extern uint64_t sysrand_eintr_mask;     /* bit k set: call k fails once with EINTR first (retried by the library) */
+extern int sysrand_fail_errno;          /* errno of a permanent failure (default EIO) */
 extern int sysrand_eintr_errno;         /* errno of that transient failure: EINTR (default) or EAGAIN */
 extern uint64_t sysrand_tape_seed;      /* tape contents: byte j of successful delivery d = mix(seed, d, j) */
 extern unsigned sysrand_deliveries;     /* successful deliveries so far */
